@@ -267,8 +267,27 @@ def dataset_selection(rep, repo, mod):
     if len(orelse) == 3 and isinstance(orelse[1], ast.For):
         names = {x.id for st in orelse[1].body for x in ast.walk(st) if isinstance(x, ast.Name)} - {'int', '_'}
         mix_ok = names == {'_rnd'}      # the mixing loop only stirs _rnd with constants
-    srcs = {x.id for x in ast.walk(orelse[0]) if isinstance(x, ast.Name)} if orelse else set()
+    srcs = {x.id for x in ast.walk(orelse[0]) if isinstance(x, ast.Name)} - {'int'} if orelse else set()
     ok = len(e) == 3 and mix_ok and srcs == {'_rnd', 'seed', 'z_idx', 'simctl_int'} and e[2] == 'delays=delays[_rnd%len(delays)]'
+    # dtype flow: elements of the int32 op/control arrays are numpy int32 scalars; NumPy 2 refuses to combine them with a Python
+    # integer that does not fit int32 (the LCG multiplier). Every array-derived operand of the seed must be converted with int().
+    if orelse:
+        big = [c for st in orelse for c in ast.walk(st) if isinstance(c, ast.Constant) and isinstance(c.value, int) and not isinstance(c.value, bool) and c.value > 2 ** 31 - 1]
+        arr_derived = {n for n, col in K.col.items()} | {'simctl_int', 'c_locs', 'c_caps', 'op'}
+        raw = []
+        for x in ast.walk(orelse[0]):
+            if isinstance(x, ast.Name) and x.id in arr_derived and isinstance(x.ctx, ast.Load):
+                top = x
+                while isinstance(getattr(top, '_parent', None), ast.Subscript) and top._parent.value is top:
+                    top = top._parent
+                par = getattr(top, '_parent', None)
+                if not (isinstance(par, ast.Call) and call_name(par) == 'int'):
+                    raw.append(x.id)
+        okd = not (big and raw)
+        rep.ob('C06.dataset', 'hash seed is built from Python ints (array elements converted with int())', okd)
+        if not okd:
+            rep.violate('C06.dataset', mod, K.f, orelse[0], f'the dataset hash combines the int32 array element(s) {sorted(set(raw))} with the integer constant {big[0].value} which does not fit int32: '
+                        f'NumPy 2 raises OverflowError in the pure-Python code path (default selection mode with more than one delay dataset)', node=orelse[0])
     rep.ob('C06.dataset', 'mode 2 -> hash(seed, line, lane seed) modulo len(delays)', ok)
     if not ok:
         rep.violate('C06.dataset', mod, K.f, orelse[-1] if orelse else 'else', 'random mode must hash (seed, z_idx, simctl_int[0]) and take the result modulo len(delays)', node=s)
